@@ -12,6 +12,12 @@ import numpy as np
 from .. import common, constrain_corr as cc, dating, gen
 from ..common import Result, Violation, f2h
 
+META = dict(
+    level='Lean theorems over the `_constrain_ages` model (all edge lists, time vectors, iteration counts, any rounded addition): every output edge meets the minimum length; parents strictly older whenever the assigned value exceeds the child (true of the repaired max(x+eps, nextafter x)); tskit edge order is topological. Model tied to numba code bit-for-bit at Float on generated inputs; date() outputs checked against the statement across methods/options/time scales. Partial: tskit validity and mutation-time placement are by contract.',
+    note='Lean kernel + {propext, Classical.choice, Quot.sound}; sampled bit-exact correspondence; tskit by contract; exact-arithmetic LS phase',
+    technique='invariant by induction over the edge list + bit-exact model/implementation correspondence',
+    ref='§3 C01',
+)
 LEAN_PROPS = ["TsdateVerif.Props.C01"]
 LEAN_BUILD = ["TsdateVerif.Model.Proto"]
 ASSUMPTIONS = [
